@@ -43,7 +43,14 @@ def gtmExtension : List (String × String) :=
 def sites : List String :=
   ["Cosmology.cosmo", "MassFunction._gtm/<derived object>.update", "MassFunction._gtm/hmf_integral_gtm", "MassFunction.filter", "MassFunction.hmf",
    "MassFunction.mdef", "MassFunction.normalised_filter", "MassFunctionWDM.dndm", "Transfer._unn_sig8/filters.TopHat", "Transfer._unn_sig8/filters.TopHat#2",
-   "Transfer.growth", "Transfer.nonlinear_delta_k", "Transfer.transfer", "TransferWDM.wdm"]
+   "Transfer.growth", "Transfer.nonlinear_delta_k", "Transfer.transfer", "TransferWDM.wdm", "WDM.__init__.Oc0", "WDM.__init__.cosmo", "WDM.__init__.mx",
+   "WDM.__init__.rho_mean"]
+
+/-- C17: the WDM component's derived inputs: the *present-day* cold-dark-matter density parameter Ω_m0 − Ω_b0 (Schneider+2013 eq. 6 uses
+    today's value at every redshift), and the mean density at the component's redshift in M_sun h² / Mpc³ -/
+def wdmOc0 : List (String × String) := [("callee", "="), ("value", "cosmo.Om0 - cosmo.Ob0")]
+def wdmRhoMean : List (String × String) :=
+  [("callee", "="), ("value", "(1 + z) ** 3 * (self.cosmo.Om0 * self.cosmo.critical_density0 / self.cosmo.h ** 2).to(u.solMass / u.Mpc ** 3).value")]
 
 /-- C03: σ₈ is always defined with a real-space top-hat: on the fixed internal wavenumber range ln k ∈ [−8, 8) at the object's own
     resolution, with kⁿT² of the object's own transfer model, whenever the requested range is narrower than [−15, 9]; otherwise on the
